@@ -321,7 +321,8 @@ func xmlTree(text string) string {
 
 // ---------------------------------------------------------------- generators
 
-var specialTips = []string{"12", "1e5", "x/y", "é3", "a.b", "a_b", "-", "#x", "0", "t-1", "A|B", "Tree1", "ends", "x*y", "a+b", "100%", "{q}", "a^b"}
+var specialTips = []string{"12", "1e5", "x/y", "é3", "a.b", "a_b", "-", "#x", "0", "t-1", "A|B", "Tree1", "ends", "x*y", "a+b", "100%", "{q}", "a^b",
+	"T0", "t01", "0t", "t1.0", "01", "1", "+1", "-1", "1e", "inf", "NaN", "t1t1", "Ends", "tree", "taxlabels1", "日本"}
 var keywordTips = []string{"end", "END", "Tree", "matrix", "TAXA", "begin", "gap", "Data", "translate", "ntax", "format", "#NEXUS", "dimensions", "characters", "ENDı"}
 
 func treeOpts(g *core.G) core.TreeOpts {
@@ -352,6 +353,11 @@ func treeOpts(g *core.G) core.TreeOpts {
 	if g.Chance(0.3) {
 		o.LenDenom = 1024
 		o.LenMax = 5000
+	}
+	if g.Chance(0.03) {
+		// a big tree now and then
+		o.MinTips, o.MaxTips = 60, 160
+		o.MaxDeg = 12
 	}
 	return o
 }
@@ -421,6 +427,19 @@ func treeList(g *core.G, k int) (ns []*core.N, flags []string) {
 		for _, x := range ns {
 			rec(x)
 		}
+	}
+	// a root that is itself a tip (one neighbour): `((…))r;` — Tips()/AllTipNames list it first
+	if g.Chance(0.04) {
+		for j, x := range ns {
+			e := core.NewE()
+			e.Len = g.Length(&core.TreeOpts{Lengths: 2, LenDenom: 8, LenMax: 40})
+			old := *x
+			old.E = e
+			inner := old
+			*x = core.N{Name: "rt", Kids: []*core.N{&inner}}
+			_ = j
+		}
+		flags = append(flags, "tiproot")
 	}
 	// two inner nodes with the same name (open finding F60 with a translate table; fine otherwise)
 	if g.Chance(0.05) {
@@ -923,6 +942,505 @@ func doNs(c *core.Ctx, kind, dump, text string) {
 	c.Emit("C13.ns", kind, dump, nsd, core.Escape(text), m, f)
 }
 
+// ---- CLI glue: `gotree reformat <out> -f <in> -i file [-o file] [--translate]`, every input x output format,
+// and the single-tree reader through `gotree compare edges` (reference = readTree, compared = readTrees)
+
+var inFormats = []string{"newick", "nexus", "nexustr", "phyloxml", "nextstrain"}
+var outFormats = []string{"newick", "nexus", "phyloxml"}
+
+// inputDoc writes the trees in the input format with the library writers (Nextstrain: JSON made here).
+func inputDoc(infmt string, ns []*core.N) (text, aux string, ok bool) {
+	if infmt == "nextstrain" {
+		root := nsOf(ns[0], 0)
+		js, _ := json.Marshal(map[string]interface{}{"version": "v2", "meta": map[string]string{}, "tree": root})
+		var b strings.Builder
+		nsDoc(root, &b)
+		return string(js), strings.TrimSpace(b.String()), true
+	}
+	text, wres := writeDoc(infmt, build(ns))
+	if wres != "ok" {
+		return "", "", false
+	}
+	if infmt == "phyloxml" {
+		aux = xmlTree(text)
+	}
+	return text, aux, true
+}
+
+func cliFormatName(f string) string {
+	if f == "nexustr" {
+		return "nexus"
+	}
+	return f
+}
+
+func reformatCase(c *core.Ctx, i int) {
+	g := c.G
+	infmt := inFormats[i%len(inFormats)]
+	outfmt := outFormats[(i/len(inFormats))%len(outFormats)]
+	translate := outfmt == "nexus" && g.Chance(0.5)
+	k := 1 + g.Intn(3)
+	if infmt == "nextstrain" {
+		k = 1
+	}
+	ns, _ := treeList(g, k)
+	if infmt == "nextstrain" {
+		o := core.DefaultOpts()
+		o.MinTips, o.MaxTips = 3, 8
+		o.Lengths = 3
+		o.Supports = 0
+		o.InnerNames = 0.2
+		n, _ := g.Tree(o)
+		core.NumberEdges(n)
+		ns = []*core.N{n}
+	}
+	text, aux, ok := inputDoc(infmt, ns)
+	if !ok {
+		return
+	}
+	broken := false
+	if infmt == "phyloxml" && g.Chance(0.2) {
+		// a tip without name in one phylogeny: an error record in the middle, the command must fail
+		j := strings.LastIndex(text, "<name>")
+		e := strings.Index(text[j:], "</name>\n")
+		if j >= 0 && e >= 0 {
+			text = text[:j] + strings.TrimLeft(text[j+e+8:], " ")
+			aux = xmlTree(text)
+			broken = true
+		}
+	}
+	if infmt == "newick" && g.Chance(0.2) {
+		// a broken tree in the input: the glue must stop with a non-zero exit (newick output keeps the trees before it)
+		lines := strings.Split(strings.TrimSuffix(text, "\n"), "\n")
+		j := g.Intn(len(lines) + 1)
+		lines = append(lines[:j], append([]string{"(a,(b,c);"}, lines[j:]...)...)
+		text = strings.Join(lines, "\n") + "\n"
+		broken = true
+	}
+	omode := "stdout"
+	if g.Chance(0.5) {
+		omode = "file"
+	}
+	doReformat(c, infmt, outfmt, translate, omode, broken, ns, text, aux)
+}
+
+func doReformat(c *core.Ctx, infmt, outfmt string, translate bool, omode string, broken bool, ns []*core.N, text, aux string) {
+	in := c.TmpFile(text)
+	defer os.Remove(in)
+	// `-f/--input-format` of reformat is declared as an alias of the global `--format`
+	fflag := "-f"
+	if len(text)%2 == 0 {
+		fflag = "--format"
+	} else if len(text)%3 == 0 {
+		fflag = "--input-format"
+	}
+	args := []string{"reformat", outfmt, fflag, cliFormatName(infmt), "-i", in}
+	if translate {
+		args = append(args, "--translate")
+	}
+	outfile := ""
+	if omode == "file" {
+		outfile = in + ".out"
+		args = append(args, "-o", outfile)
+		defer os.Remove(outfile)
+	}
+	r := c.RunCLI("", 20*time.Second, args...)
+	out := r.Stdout
+	if omode == "file" {
+		b, err := os.ReadFile(outfile)
+		if err == nil {
+			out = string(b)
+		} else {
+			out = ""
+		}
+		if r.Exit == 0 && strings.TrimSpace(r.Stdout) != "" {
+			out = "STDOUT-NOT-EMPTY:" + out
+		}
+	} else if r.Exit != 0 {
+		// on failure main prints the error message as a last line on stdout (cobra's usage text goes to
+		// stderr): keep what the command itself wrote before it
+		if j := strings.Index(out, "Usage:"); j >= 0 {
+			out = out[:j]
+		}
+		trimmed := strings.TrimSuffix(out, "\n")
+		if j := strings.LastIndex(trimmed, "\n"); j >= 0 {
+			out = trimmed[:j+1]
+		} else {
+			out = ""
+		}
+	}
+	exit := "ok"
+	if r.Timeout {
+		exit = "timeout"
+	} else if r.Exit != 0 {
+		exit = "fail"
+	}
+	outx := ""
+	if outfmt == "phyloxml" && out != "" {
+		outx = xmlTree(out)
+	}
+	m := ""
+	if strings.TrimSpace(out) != "" {
+		m, _ = readers(c, outfmt, out)
+	}
+	tr := "0"
+	if translate {
+		tr = "1"
+	}
+	br := "0"
+	if broken {
+		br = "1"
+	}
+	c.Emit("C13.reformat", infmt, outfmt, tr, omode, br, core.Dumps(ns), core.Escape(text), aux, exit, core.Escape(out), outx, m)
+}
+
+// firstCLICase: `gotree compare edges -i doc -c doc -f fmt`: the reference is read by the single-tree reader,
+// the compared trees by the multi-tree reader; for compared tree 0 every branch of the reference must be found
+// with the same length and support.
+func firstCLICase(c *core.Ctx, i int) {
+	g := c.G
+	infmt := inFormats[i%len(inFormats)]
+	k := 1 + g.Intn(3)
+	ns, _ := treeList(g, k)
+	if infmt == "nextstrain" {
+		o := core.DefaultOpts()
+		o.MinTips, o.MaxTips = 3, 8
+		o.Lengths = 3
+		o.Supports = 0
+		n, _ := g.Tree(o)
+		core.NumberEdges(n)
+		ns = []*core.N{n}
+	}
+	text, aux, ok := inputDoc(infmt, ns)
+	if !ok {
+		return
+	}
+	doFirstCLI(c, infmt, ns, text, aux)
+}
+
+func doFirstCLI(c *core.Ctx, infmt string, ns []*core.N, text, aux string) {
+	in := c.TmpFile(text)
+	defer os.Remove(in)
+	r := c.RunCLI("", 30*time.Second, "compare", "edges", "--format", cliFormatName(infmt), "-i", in, "-c", in)
+	exit := "ok"
+	if r.Timeout {
+		exit = "timeout"
+	} else if r.Exit != 0 {
+		exit = "fail"
+	}
+	// rows of compared tree 0: length support found comparedlength comparedsupport
+	var rows []string
+	for _, l := range strings.Split(r.Stdout, "\n") {
+		f := strings.Split(l, "\t")
+		if len(f) < 16 || f[0] != "0" {
+			continue
+		}
+		rows = append(rows, f[2]+";"+f[3]+";"+f[9]+";"+f[14]+";"+f[15])
+	}
+	c.Emit("C13.clifirst", infmt, core.Dumps(ns), core.Escape(text), aux, exit, strings.Join(rows, "|"))
+}
+
+// ---- Nexus documents that gotree's writer does not emit but that are legal Nexus
+
+func kwCase(mode int, w string) string {
+	switch mode {
+	case 1:
+		return strings.ToLower(w)
+	case 2:
+		return w[:1] + strings.ToLower(w[1:])
+	}
+	return w
+}
+
+// renamedNewick writes the Newick text of the tree with its tips renamed through m.
+func renamedNewick(n *core.N, m map[string]string) string {
+	cl := n.Clone()
+	var rec func(x *core.N, isRoot bool)
+	rec = func(x *core.N, isRoot bool) {
+		if len(x.Kids) == 0 || (isRoot && len(x.Kids) == 1) {
+			if v, ok := m[x.Name]; ok {
+				x.Name = v
+			}
+		}
+		for _, k := range x.Kids {
+			rec(k, false)
+		}
+	}
+	rec(cl, true)
+	t, err := core.Build(cl)
+	if err != nil {
+		panic(err)
+	}
+	return t.Newick()
+}
+
+func foreignCase(c *core.Ctx, i int) {
+	g := c.G
+	k := 1 + g.Intn(4)
+	ns, _ := treeList(g, k)
+	var flags []string
+	kc := g.Intn(3)
+	flags = append(flags, []string{"kw-upper", "kw-lower", "kw-capital"}[kc])
+	ind := "  "
+	if g.Chance(0.3) {
+		ind = "\t"
+		flags = append(flags, "tabs")
+	}
+	labels := ns[0].TipNames()
+	var b strings.Builder
+	b.WriteString("#NEXUS\n")
+	if g.Chance(0.3) {
+		b.WriteString("[ written by hand ; BEGIN TREES; not a block ]\n")
+		flags = append(flags, "comment-top")
+	}
+	if g.Chance(0.7) {
+		b.WriteString(kwCase(kc, "BEGIN") + " " + kwCase(kc, "TAXA") + ";\n")
+		if g.Chance(0.15) {
+			b.WriteString(ind + kwCase(kc, "TITLE") + " Taxa1;\n")
+			flags = append(flags, "title-command")
+		}
+		if g.Chance(0.7) {
+			b.WriteString(ind + kwCase(kc, "DIMENSIONS") + " " + kwCase(kc, "NTAX") + "=" + strconv.Itoa(len(labels)) + ";\n")
+		} else {
+			flags = append(flags, "no-dimensions")
+		}
+		if g.Chance(0.2) {
+			b.WriteString(ind + "[the taxa]\n")
+			flags = append(flags, "comment-taxa")
+		}
+		b.WriteString(ind + kwCase(kc, "TAXLABELS"))
+		multi := g.Chance(0.3)
+		for _, l := range labels {
+			if multi {
+				b.WriteString("\n" + ind + ind + l)
+			} else {
+				b.WriteString(" " + l)
+			}
+		}
+		if multi {
+			b.WriteString("\n" + ind)
+			flags = append(flags, "labels-multiline")
+		}
+		b.WriteString(";\n" + kwCase(kc, "END") + ";\n")
+	} else {
+		flags = append(flags, "no-taxa-block")
+	}
+	// translate table in the standard Nexus form (numbers from 1, commas)
+	var m map[string]string
+	trMode := g.Intn(4)
+	if trMode > 0 {
+		m = map[string]string{}
+		for j, l := range labels {
+			m[l] = strconv.Itoa(j + 1)
+		}
+		flags = append(flags, []string{"", "translate-commas", "translate-oneline", "translate-commas-nextline"}[trMode])
+	}
+	writeTranslate := func() {
+		if trMode == 0 {
+			return
+		}
+		b.WriteString(ind + kwCase(kc, "TRANSLATE"))
+		for j, l := range labels {
+			sep := ","
+			if j == len(labels)-1 {
+				sep = ""
+			}
+			if trMode == 1 {
+				b.WriteString("\n" + ind + ind + strconv.Itoa(j+1) + "   " + l + sep)
+			} else if trMode == 3 {
+				// the comma at the start of the next line
+				if j > 0 {
+					b.WriteString("\n" + ind + ", " + strconv.Itoa(j+1) + " " + l)
+				} else {
+					b.WriteString("\n" + ind + "  " + strconv.Itoa(j+1) + " " + l)
+				}
+			} else {
+				b.WriteString(" " + strconv.Itoa(j+1) + " " + l + sep)
+			}
+		}
+		if trMode == 1 || trMode == 3 {
+			b.WriteString("\n" + ind)
+		}
+		b.WriteString(";\n")
+	}
+	split := len(ns)
+	if len(ns) >= 2 && g.Chance(0.15) {
+		split = 1 + g.Intn(len(ns)-1)
+		flags = append(flags, "several-trees-blocks")
+	}
+	star := g.Chance(0.04)
+	if star {
+		flags = append(flags, "star")
+	}
+	writeTrees := func(from, to int, withTranslate bool) {
+		b.WriteString(kwCase(kc, "BEGIN") + " " + kwCase(kc, "TREES") + ";\n")
+		if withTranslate {
+			writeTranslate()
+		}
+		for j := from; j < to; j++ {
+			if g.Chance(0.2) {
+				b.WriteString(ind + "[tree " + strconv.Itoa(j) + "]\n")
+				flags = append(flags, "comment-trees")
+			}
+			b.WriteString(ind + kwCase(kc, "TREE") + " ")
+			if star && j == from {
+				b.WriteString("* ")
+			}
+			b.WriteString("t" + strconv.Itoa(j+1) + " = ")
+			if g.Chance(0.4) {
+				b.WriteString(g.Pick([]string{"[&R] ", "[&U] ", "[&W 0.5] "}))
+				flags = append(flags, "rooting-comment")
+				if g.Chance(0.3) {
+					// the tree itself on the next line(s): line ends after the comment are skipped
+					b.WriteString("\n\n" + ind + ind)
+					flags = append(flags, "tree-on-next-line")
+				}
+			}
+			if m != nil {
+				// the table of the first block stays in force for later blocks (the parser keeps one table)
+				b.WriteString(renamedNewick(ns[j], m))
+			} else {
+				b.WriteString(renamedNewick(ns[j], nil))
+			}
+			b.WriteString("\n")
+		}
+		b.WriteString(kwCase(kc, "END") + ";\n")
+	}
+	writeTrees(0, split, true)
+	if split < len(ns) {
+		// the table of the first block stays in force (the parser keeps one table)
+		writeTrees(split, len(ns), false)
+	}
+	if g.Chance(0.2) {
+		b.WriteString("begin figtree;\n\tset appearance.branchLineWidth=1.0;\n\tset tipLabels.fontSize=8;\nend;\n")
+		flags = append(flags, "figtree-block")
+	}
+	// deduplicate flags
+	seen := map[string]bool{}
+	var fl []string
+	for _, f := range flags {
+		if f != "" && !seen[f] {
+			seen[f] = true
+			fl = append(fl, f)
+		}
+	}
+	doForeign(c, strings.Join(fl, ","), ns, b.String())
+}
+
+func doForeign(c *core.Ctx, flags string, ns []*core.N, text string) {
+	m, f := readers(c, "nexus", text)
+	c.Emit("C13.foreign", flags, core.Dumps(ns), core.Escape(text), m, f)
+}
+
+// ---- PhyloXML documents in forms gotree's writer does not emit
+
+func xmlEsc(s string) string {
+	var b strings.Builder
+	xml.EscapeText(&b, []byte(s))
+	return b.String()
+}
+
+// foreignPxClade writes a clade in one of the alternative forms.
+func foreignPxClade(g *core.G, n *core.N, isRoot bool, b *strings.Builder, flags map[string]bool, prefix string, attrLen bool) {
+	open := "<" + prefix + "clade"
+	if !isRoot && n.E.Len != -1 && attrLen {
+		open += " branch_length=\"" + strconv.FormatFloat(n.E.Len, 'f', -1, 64) + "\""
+		flags["attr-length"] = true
+	}
+	b.WriteString(open + ">")
+	if g.Chance(0.2) {
+		b.WriteString("<!-- c -->")
+		flags["xml-comment"] = true
+	}
+	if n.Name != "" {
+		switch g.Intn(7) {
+		case 5: // scientific name wins over the code
+			b.WriteString("<" + prefix + "taxonomy><" + prefix + "code>ZZZ</" + prefix + "code><" + prefix + "scientific_name>" + xmlEsc(n.Name) + "</" + prefix + "scientific_name></" + prefix + "taxonomy>")
+			flags["name-sci-and-code"] = true
+		case 6: // <name> wins over the taxonomy
+			b.WriteString("<" + prefix + "taxonomy><" + prefix + "scientific_name>Y y</" + prefix + "scientific_name><" + prefix + "code>ZZZ</" + prefix + "code></" + prefix + "taxonomy><" + prefix + "name>" + xmlEsc(n.Name) + "</" + prefix + "name>")
+			flags["name-and-taxonomy"] = true
+		case 0:
+			b.WriteString("<" + prefix + "taxonomy><" + prefix + "scientific_name>" + xmlEsc(n.Name) + "</" + prefix + "scientific_name></" + prefix + "taxonomy>")
+			flags["name-sci"] = true
+		case 1:
+			b.WriteString("<" + prefix + "taxonomy><" + prefix + "id provider=\"x\">7</" + prefix + "id><" + prefix + "code>" + xmlEsc(n.Name) + "</" + prefix + "code></" + prefix + "taxonomy>")
+			flags["name-code"] = true
+		case 2:
+			b.WriteString("<" + prefix + "name><![CDATA[" + n.Name + "]]></" + prefix + "name>")
+			flags["name-cdata"] = true
+		case 3:
+			b.WriteString("<" + prefix + "name>zz</" + prefix + "name><" + prefix + "name>" + xmlEsc(n.Name) + "</" + prefix + "name>")
+			flags["name-twice"] = true
+		default:
+			b.WriteString("<" + prefix + "name>" + xmlEsc(n.Name) + "</" + prefix + "name>")
+		}
+	}
+	if !isRoot {
+		if n.E.Len != -1 && !attrLen {
+			v := strconv.FormatFloat(n.E.Len, 'f', -1, 64)
+			switch g.Intn(4) {
+			case 0:
+				v = " " + v + "\n"
+				flags["number-blanks"] = true
+			case 1:
+				v = strconv.FormatFloat(n.E.Len, 'e', -1, 64)
+				flags["number-exp"] = true
+			}
+			b.WriteString("<" + prefix + "branch_length>" + v + "</" + prefix + "branch_length>")
+		}
+		if len(n.Kids) > 0 && n.E.Sup != -1 {
+			if g.Chance(0.3) {
+				b.WriteString("<" + prefix + "confidence type=\"probability\">0.123</" + prefix + "confidence>")
+				flags["confidence-twice"] = true
+			}
+			b.WriteString("<" + prefix + "confidence type=\"bootstrap\">" + strconv.FormatFloat(n.E.Sup, 'f', -1, 64) + "</" + prefix + "confidence>")
+		}
+	}
+	if g.Chance(0.15) {
+		b.WriteString("<" + prefix + "property datatype=\"xsd:string\" ref=\"a:b\" applies_to=\"clade\">p</" + prefix + "property>")
+		flags["extra-element"] = true
+	}
+	for _, k := range n.Kids {
+		foreignPxClade(g, k, false, b, flags, prefix, attrLen)
+	}
+	b.WriteString("</" + prefix + "clade>\n")
+}
+
+func foreignPxCase(c *core.Ctx, i int) {
+	g := c.G
+	ns, _ := treeList(g, 1+g.Intn(3))
+	flags := map[string]bool{}
+	prefix := ""
+	head := "<phyloxml xmlns=\"http://www.phyloxml.org\">\n"
+	if g.Chance(0.2) {
+		prefix = "phy:"
+		head = "<phy:phyloxml xmlns:phy=\"http://www.phyloxml.org\">\n"
+		flags["ns-prefix"] = true
+	}
+	attrLen := g.Chance(0.15)
+	var b strings.Builder
+	b.WriteString("<?xml version=\"1.0\" encoding=\"UTF-8\"?>\n" + head)
+	for _, n := range ns {
+		b.WriteString("<" + prefix + "phylogeny rooted=\"true\"><" + prefix + "name>ph</" + prefix + "name><" + prefix + "description>d</" + prefix + "description>\n")
+		foreignPxClade(g, n, true, &b, flags, prefix, attrLen)
+		b.WriteString("</" + prefix + "phylogeny>\n")
+	}
+	b.WriteString("</" + prefix + "phyloxml>\n")
+	var fl []string
+	for _, k := range []string{"ns-prefix", "attr-length", "xml-comment", "name-sci", "name-sci-and-code", "name-and-taxonomy", "name-code", "name-cdata", "name-twice", "number-blanks", "number-exp", "confidence-twice", "extra-element"} {
+		if flags[k] {
+			fl = append(fl, k)
+		}
+	}
+	doForeignPx(c, strings.Join(fl, ","), ns, b.String())
+}
+
+func doForeignPx(c *core.Ctx, flags string, ns []*core.N, text string) {
+	m, f := readers(c, "phyloxml", text)
+	c.Emit("C13.foreignpx", flags, core.Dumps(ns), core.Escape(text), xmlTree(text), m, f)
+}
+
 // ---------------------------------------------------------------- replay / run
 
 func parseDumps(s string) []*core.N {
@@ -956,6 +1474,30 @@ func Replay(c *core.Ctx, lines []string) {
 				panic(err)
 			}
 			doNs(c, f[1], f[2], text)
+		case f[0] == "C13.foreign" && len(f) >= 4:
+			text, err := core.Unescape(f[3])
+			if err != nil {
+				panic(err)
+			}
+			doForeign(c, f[1], parseDumps(f[2]), text)
+		case f[0] == "C13.foreignpx" && len(f) >= 4:
+			text, err := core.Unescape(f[3])
+			if err != nil {
+				panic(err)
+			}
+			doForeignPx(c, f[1], parseDumps(f[2]), text)
+		case f[0] == "C13.reformat" && len(f) >= 9:
+			text, err := core.Unescape(f[7])
+			if err != nil {
+				panic(err)
+			}
+			doReformat(c, f[1], f[2], f[3] == "1", f[4], f[5] == "1", parseDumps(f[6]), text, f[8])
+		case f[0] == "C13.clifirst" && len(f) >= 5:
+			text, err := core.Unescape(f[3])
+			if err != nil {
+				panic(err)
+			}
+			doFirstCLI(c, f[1], parseDumps(f[2]), text, f[4])
 		case f[0] == "C13.doc" && len(f) >= 3:
 			text, err := core.Unescape(f[2])
 			if err != nil {
@@ -996,12 +1538,24 @@ func Run(c *core.Ctx) {
 	for i := 0; i < c.Scale(60, 1000); i++ {
 		nsCase(c, i)
 	}
+	for i := 0; i < c.Scale(120, 3000); i++ {
+		foreignCase(c, i)
+	}
+	for i := 0; i < c.Scale(80, 2000); i++ {
+		foreignPxCase(c, i)
+	}
 	if c.Gotree != "" {
 		m := c.Scale(24, 300)
 		for i := 0; i < m; i++ {
 			format := []string{"nexus", "nexustr", "phyloxml", "newick"}[i%4]
 			ns, _ := treeList(c.G, 1+c.G.Intn(3))
 			doChain(c, format, "cli", ns)
+		}
+		for i := 0; i < c.Scale(45, 600); i++ {
+			reformatCase(c, i)
+		}
+		for i := 0; i < c.Scale(15, 200); i++ {
+			firstCLICase(c, i)
 		}
 	}
 }
